@@ -3,6 +3,7 @@
 //! It always exits 0 after writing FILE (the driver judges); exit 3 = usage error.
 #![allow(clippy::needless_range_loop)]
 mod ev;
+mod frames;
 mod gen;
 mod json;
 mod oracle;
